@@ -10,6 +10,7 @@ mod bk;
 mod chain;
 mod est;
 mod judge;
+mod long;
 mod model;
 mod ops;
 
@@ -34,7 +35,9 @@ fn ops_for(kind: u8, r: usize, c: usize, t: bool) -> Rc<Vec<Op>> {
                     0 => ops::unary(r, c, t),
                     1 => ops::binary(),
                     2 => ops::vec_unary(c, t),
-                    _ => ops::vec_binary(),
+                    3 => ops::vec_binary(),
+                    4 => long::unary_long(r, c),
+                    _ => long::vec_long(c),
                 })
             })
             .clone()
@@ -82,6 +85,29 @@ impl Harness for C20 {
                 jobs.push(Job::new(format!("bin-{}x{}-with-{}xN", r, c, rb), json!({"kind": "bin", "r": r, "c": c, "rb": rb, "nmax": nmax, "t": t, "seed": seed})));
             }
         }
+        // Extension (round 2): long vectors and long rows / columns (`long.rs`)
+        for &n in long::lengths(t) {
+            jobs.push(Job::new(format!("Lv1-n{}", n), json!({"kind": "lvec", "n": n, "t": t, "seed": seed})));
+            jobs.push(Job::new(format!("Lv2-n{}", n), json!({"kind": "lvbin", "n": n, "t": t, "seed": seed})));
+            for (r, c) in long::shapes(n) {
+                jobs.push(Job::new(format!("L1op-{}x{}", r, c), json!({"kind": "lun", "r": r, "c": c, "t": t, "seed": seed})));
+            }
+        }
+        for &n in long::est_lengths(t) {
+            for (i, (name, _, _)) in est::LONG_ESTS.iter().enumerate() {
+                let e = est::LONG_BASE + i;
+                for f in 0..long::n_patterns(t) {
+                    let job = Job::new(format!("Lfeat-{}-n{}-first{}", name, n, f), json!({"kind": "lest", "e": e, "n": n, "first": f, "t": t, "seed": seed}));
+                    // the SVC trainer's shuffles are answered by the explorer: default answer only
+                    jobs.push(if e == est::E_SVC_LONG { job.with_dev_bound(0) } else { job });
+                }
+            }
+        }
+        for &n in long::lengths(t) {
+            for (r, c) in long::shapes(n) {
+                jobs.push(Job::new(format!("L2op-{}x{}", r, c), json!({"kind": "lbin", "r": r, "c": c, "n": n, "t": t, "seed": seed})));
+            }
+        }
         Plan {
             jobs,
             budget_s: if t { 2400 } else { 40 },
@@ -104,6 +130,22 @@ impl Harness for C20 {
                 for (name, _, _) in est::ESTS.iter() {
                     f.push((*name, if *name == "gaussian_nb" { 500 } else { 1_000 }));
                 }
+                // Extension (round 2): the long family must be in domain, reach products with a long
+                // contracted dimension on transposed-layout operands, and every long estimator must
+                // have produced values on all three backends
+                f.extend([
+                    ("long_vector_cases_in_domain", 10_000),
+                    ("long_matrix_cases_in_domain", 20_000),
+                    ("long_two_operand_cases_in_domain", 8_000),
+                    ("long_products_with_inner_dimension_ge_15", 3_000),
+                    ("long_cases_with_transposed_layout_operand", 20_000),
+                    ("long_shape_mismatch_by_one", 10_000),
+                    ("long_estimator_cases_with_values_from_all_three_backends", 100_000),
+                    ("long_distance_cases_equal_to_the_textbook_value", 50_000),
+                ]);
+                for (name, _, _) in est::LONG_ESTS.iter() {
+                    f.push((*name, 10_000));
+                }
                 f
             },
             bounds: json!({
@@ -114,6 +156,8 @@ impl Harness for C20 {
                 "chains_E2": format!("6 start shapes <= 2x3, 16 actions, every history of length <= {}", if t { 5 } else { 3 }),
                 "estimators": format!("{} estimators x every data set of {} rows drawn (with repetition, ordered) from a {}-point lattice x 3-6 target patterns x every listed configuration x 2 input layouts; queries = the 3x3 lattice", est::FIRST_DECOMPOSITION, if t { 5 } else { 4 }, if t { 9 } else { 6 }),
                 "decompositions": format!("LU, QR, SVD, EVD (general, symmetric on A+A^T), Cholesky (on A^T A + I) and their solvers on every 3x3 matrix over {} x 2 layouts", if t { "{0,1,-1,2,-2}" } else { "{0,1,-1}" }),
+                "long_operands_round2": format!("lengths / long-dimension sizes N in {:?}: every BaseVector method (element updates at every position; take with every single index, the reversal, every second index, a repeat) x 4 value alphabets (position-coded, mixed-sign / all-negative / all-positive / small with ties) x 3 vector sources; two-vector methods with second lengths N, N-1, N+1, 1 x 9 source pairs; one-operand matrix methods on 1xN, Nx1, 2xN, Nx2 (every reshape factorisation, element updates / slices / takes at first, middle, last of the long axis) x 5 alphabets (the 4 + all-negative with magnitudes 401.. ) x 2 layouts; every two-operand method on each of these with every second operand in {{1xN, Nx1, 2xN, Nx2, 1x(N+1), (N+1)x1, 2x(N-1), (N-1)x2, 1x1, 1x2, 2x1, 2x2}} x 4 alphabets x 4 layout combinations", long::lengths(t)),
+                "long_feature_data_round2": format!("N feature columns, N in {:?}: linear-kernel SVR (predictions), linear-kernel SVC (decision values and labels; trainer visiting order = default answer to every draw), k-NN classifier (k in {{1,2}} x linear search / cover tree), and Euclidian / Manhattan / Minkowski(1,2,3) / Hamming distances + linear / RBF / polynomial / sigmoid kernels on every (data row, query row) pair, on EVERY ordered data set of 4 rows drawn with repetition from {} row patterns x 3-4 target patterns x 2 input layouts; queries = the patterns, the zero row, the all-ones row and 3 unit vectors", long::est_lengths(t), long::n_patterns(t)),
                 "termination": "per-case deadline 20 s (driver); Lasso / ElasticNet on the two bindings run in a child process with a deadline of 0.25 s CPU time (10 s wall) per fit",
                 "seed": format!("VERIF_SEED {} selects the multiplier applied to the alphabets (8 fixed multipliers, 0 = plain)", seed),
             }),
@@ -161,12 +205,78 @@ impl Harness for C20 {
                 judge::case(op, &fill(f, 1, n, 0, seed), sa, Some((&fill(f, 1, nb, 1, seed), sb)));
             }
             "est" => est_case(job, t, seed),
+            "lun" => {
+                let (r, c) = (job.u("r"), job.u("c"));
+                let f = mc::choose(long::LONG_FILLS.len());
+                let la = mc::choose(2);
+                let ops = ops_for(4, r, c, t);
+                let op = &ops[mc::choose(ops.len())];
+                if judge::case(op, &long::fill_long(f, r, c, 0, seed), la, None) {
+                    mc::count("long_matrix_cases_in_domain");
+                    if la > 0 {
+                        mc::count("long_cases_with_transposed_layout_operand");
+                    }
+                }
+            }
+            "lbin" => {
+                let (r, c) = (job.u("r"), job.u("c"));
+                let partners = long::partners(job.u("n"));
+                let (rb, cb) = partners[mc::choose(partners.len())];
+                let f = mc::choose(FILLS.len());
+                let la = mc::choose(2);
+                let lb = mc::choose(2);
+                let ops = ops_for(1, 0, 0, t);
+                let op = &ops[mc::choose(ops.len())];
+                let a = long::fill_long(f, r, c, 0, seed);
+                if judge::case(op, &a, la, Some((&long::fill_long(f, rb, cb, 1, seed), lb))) {
+                    mc::count("long_two_operand_cases_in_domain");
+                    if long::inner_dimension(op, &a) >= 15 {
+                        mc::count("long_products_with_inner_dimension_ge_15");
+                    }
+                    if la + lb > 0 {
+                        mc::count("long_cases_with_transposed_layout_operand");
+                    }
+                } else if rb.max(cb) > 2 && rb.max(cb) != r.max(c) {
+                    mc::count("long_shape_mismatch_by_one");
+                }
+            }
+            "lvec" => {
+                let n = job.u("n");
+                let f = mc::choose(FILLS.len());
+                let src = mc::choose(3);
+                let ops = ops_for(5, 1, n, t);
+                let op = &ops[mc::choose(ops.len())];
+                if judge::case(op, &long::fill_long(f, 1, n, 0, seed), src, None) {
+                    mc::count("long_vector_cases_in_domain");
+                }
+            }
+            "lvbin" => {
+                let n = job.u("n");
+                let nb = mc::pick(&long::vec_partners(n));
+                let f = mc::choose(FILLS.len());
+                let sa = mc::choose(3);
+                let sb = mc::choose(3);
+                let ops = ops_for(3, 0, 0, t);
+                let op = &ops[mc::choose(ops.len())];
+                let a = long::fill_long(f, 1, n, 0, seed);
+                if judge::case(op, &a, sa, Some((&long::fill_long(f, 1, nb, 1, seed), sb))) {
+                    mc::count("long_vector_cases_in_domain");
+                    if long::inner_dimension(op, &a) >= 15 {
+                        mc::count("long_products_with_inner_dimension_ge_15");
+                    }
+                }
+            }
+            "lest" => long_est_case(job, t, seed),
             "chain" => {
                 let acts: Vec<u8> = job.params["acts"].as_array().map(|a| a.iter().map(|x| x.as_u64().unwrap_or(0) as u8).collect()).unwrap_or_default();
                 chain::run_replay(job.u("init"), &acts);
             }
             other => panic!("unknown job kind {}", other),
         }
+    }
+
+    fn cleanup(&self) {
+        mc_sc::release_rng();
     }
 
     fn extra(&self, tier: Tier, _seed: u64) -> Vec<mc::ExtraResult> {
@@ -181,7 +291,7 @@ impl Harness for C20 {
     fn assumptions(&self) -> Vec<String> {
         vec![
             "operands are brought into each backend through zeros + set (+ transpose); that this reproduces the logical content is checked in every case through shape + get".into(),
-            "no RNG is involved in any explored path (BaseMatrix::rand, SVC and k-means are excluded; the forests use their seeded StdRng, identical on all backends)".into(),
+            "no unowned RNG is involved in any explored path (BaseMatrix::rand and k-means are excluded; the forests use their seeded StdRng, identical on all backends; the shuffles of the SVC trainer in the long-feature family go through the verif-hooks seam and get the default answer on every backend - the schedules themselves are C10's matter)".into(),
             "Lasso / ElasticNet fits on the two bindings run in a child process of the same binary under a CPU-time deadline; a fit that exceeds it is reported as not terminating".into(),
             "HashMap iteration order only influences the last ulp of entropy-based metrics; observation digests of estimators are rounded to 9 significant digits".into(),
         ]
@@ -244,6 +354,29 @@ fn est_case(job: &Job, t: bool, seed: u64) {
     let cfg = mc::choose(if !t && e == 4 { 1 } else { ncfg });
     let lx = mc::choose(2);
     est::run_case(&job.name, e, cfg, &data, lx);
+}
+
+/// One case of the long-feature family: 4 rows drawn (ordered, with repetition; the first fixed by
+/// the job) from the row patterns of `long::pattern` with `n` feature columns.
+fn long_est_case(job: &Job, t: bool, seed: u64) {
+    let (e, n, first) = (job.u("e"), job.u("n"), job.u("first"));
+    let (_, ncfg, target) = est::entry(e);
+    let npat = long::n_patterns(t);
+    let scale = [1.0, 2.0, 0.5, 4.0, 0.25, 8.0, 2.0, 0.5][(seed % 8) as usize];
+    let mut rows = vec![first];
+    for i in 1..4 {
+        // rotated so that the first explored data set of every job has distinct rows
+        rows.push((mc::choose(npat) + first + i) % npat);
+    }
+    let y: Vec<f64> = match target {
+        0 => Y_REG[mc::choose(Y_REG.len())][..4].to_vec(),
+        1 => Y_CLS[mc::choose(4)][..4].to_vec(),
+        _ => vec![0.0; 4],
+    };
+    let x = model::M::new(4, n, |i, j| long::pattern(rows[i], n, j) * scale);
+    let cfg = mc::choose(ncfg);
+    let lx = mc::choose(2);
+    est::run_case(&job.name, e, cfg, &est::Data { x, y, q: long::queries(n, npat, scale) }, lx);
 }
 
 fn main() {
